@@ -509,14 +509,14 @@ inductive HExpect where
 /-- A hierarchy without a sequence chunk ("a whole genome, or something unknown") is taken as it is.  With a
     sequence chunk in it the chunk must have a chromosome ABOVE it (else NoSuchAncestorException), must carry the
     chunk's sequence (else NullSequenceException) and must say where it sits on the level above (no class is named for
-    that: any documented class). -/
+    that: any documented class; a chunk without any level above does not say so either). -/
 def hierExpect (hd : HD) : HExpect :=
   match hd.dropWhile (fun l => l.ty != .chunk) with
   | [] => .accept
   | c :: above =>
       let noChrom := !above.any (fun l => l.ty == .chromosome)
       let noSeq := !c.hasSeq
-      let unlocated := !above.isEmpty && !c.located
+      let unlocated := !c.located
       if noChrom || noSeq || unlocated then
         .refuse ((if noChrom then [.NoSuchAncestor] else []) ++ (if noSeq then [.NullSequence] else [])) unlocated
       else .accept
@@ -556,8 +556,10 @@ def okHier (hd : HD) : HOut → Bool
   | .illformed => false
   | .okWf => hierExpect hd == .accept
   | .refused c =>
+      -- a documented refusal of a hierarchy the documentation allows is outside this property (C19 asks that INVALID
+      -- input is refused and that nothing ill-formed / no internal error comes out of valid input)
       match hierExpect hd with
-      | .accept => false
+      | .accept => true
       | .refuse cs anyDoc => anyDoc || cs.contains c
 
 /-! ### zero-argument members of a valid object -/
@@ -571,20 +573,13 @@ structure Res where
   inside : Bool         -- lies completely inside its sequence chunk (true without a chunk)
   nonEmpty : Bool       -- covers at least one base
 
-/-- A property or a method without arguments of a VALID object has nothing to refuse except what the object lacks:
-    the class documentation names NullSequenceException / NullParentException for a missing sequence / parent (an
-    object outside its sequence chunk has no sequence either), InvalidStrandException for an unstranded object,
-    NoncodingTranscriptError for an object without CDS, EmptyLocationException / LocationException /
-    LocationOverlapException / NoSuchAncestorException for an object that is (partly) outside its sequence chunk or
-    covers no base, InvalidQueryError for a collection that covers no base, and NotImplementedError / an export error
-    for operations that are declared unsupported.  Any other class - ValueError and InvalidPositionException in
-    particular, which speak about ARGUMENTS - is not an answer to a call that has none. -/
-def zeroArgRefusalAllowed (r : Res) (c : String) : Bool :=
-  ((c == "NullSequence" || c == "NullParent") && !(r.hasParent && r.hasSeq && r.inside)) ||
-  (c == "InvalidStrand" && !r.directional) || (c == "NoncodingTranscript" && !r.coding) ||
-  ((c == "EmptyLocation" || c == "Location" || c == "LocationOverlap" || c == "NoSuchAncestor") && (!r.inside || !r.nonEmpty)) ||
-  (c == "InvalidQuery" && !r.nonEmpty) ||
-  c == "NotImplemented" || c == "Export"
+/-- A property or a method without arguments of a VALID object: every class of the library's own exception hierarchy
+    is a documented answer (the property allows "a well-formed value or such a documented exception"; whether the
+    refusal is the RIGHT answer is the subject of the property that owns the member: C05 for codons, C07 for chunks, ...).
+    The builtin ValueError / TypeError are documented only where a docstring says so, and the docstrings say so about
+    ARGUMENTS: they are not an answer to a call that has none. -/
+def zeroArgRefusalAllowed (_r : Res) (c : String) : Bool :=
+  !(c == "ValueError" || c == "TypeError")
 
 /-! ### grid lines: `ok wf` or a documented class -/
 
